@@ -225,3 +225,65 @@ def r5(ctx, R):
                 R.ok(c, w, found='threshold scales with the magnitude of the operands')
             else:
                 R.bad(c, w, 'a tolerance relative to |t| or |Tend| (or an integer step count)', f'absolute threshold {thr}')
+
+
+RB_SERIAL = {
+    'self.MS[p].status.slot': 'p', 'self.MS[p].prev': 'self.MS[active_slots[i1 - 2]]',
+    'self.MS[p].status.first': 'active_slots.index(p) == 0', 'self.MS[p].status.last': 'active_slots.index(p) == len(active_slots) - 1',
+    'self.MS[p].status.done': 'False', 'self.MS[p].status.prev_done': 'False', 'self.MS[p].status.iter': '0', 'self.MS[p].status.stage': "'SPREAD'",
+    'self.MS[p].status.force_done': 'False', 'self.MS[p].status.time_size': 'len(active_slots)',
+}
+RB_MPI = {
+    'self.S.prev': '(self.S.status.slot - 1) % size', 'self.S.next': '(self.S.status.slot + 1) % size', 'self.S.status.first': 'self.S.prev == size - 1',
+    'self.S.status.last': 'self.S.next == 0', 'self.S.status.done': 'False', 'self.S.status.prev_done': 'False', 'self.S.status.iter': '0',
+    'self.S.status.stage': "'SPREAD'", 'self.S.status.force_done': 'False', 'self.S.status.time_size': 'size',
+}
+
+
+@rule('C06', 'C06.R6', 'restart_block: every active step p gets slot p, its predecessor, first/last from its position, a fresh status, and u0', floor=30)
+def r6(ctx, R):
+    repo = ctx.repo
+    for rel, cn, _ in ct.ALL:
+        fn = repo.func(rel, f'{cn}.restart_block')
+        w = f'{rel}:{cn}.restart_block'
+        R.fn(w)
+        N = Normalizer(fn, inline_scalars=False)
+        want = RB_MPI if cn == 'controller_MPI' else RB_SERIAL
+        got = {}
+        for c in N.contribs:
+            if c.target in want and c.op == '=':
+                got.setdefault(c.target, []).append(c)
+        for tgt, rhs in want.items():
+            cs = got.get(tgt, [])
+            ok = len(cs) == 1 and cs[0].rhs == rhs and not cs[0].guards
+            if ok and cn != 'controller_MPI':
+                ok = len(cs[0].loops) == 1 and repr(cs[0].loops[0]) == 'i1=1..len(active_slots)'
+            R.check(ok, f'{cn}.restart_block :: {tgt} = {rhs}', w, f'one unconditional assignment per active slot: {rhs}', [c.describe()[:120] for c in cs])
+        if cn != 'controller_MPI':
+            p = [c for c in N.contribs if c.target == 'p' and c.op == '=' and c.loops and c.loops[0].kind == 'range']
+            R.check(len(p) == 1 and p[0].rhs == 'active_slots[i1 - 1]', f'{cn}.restart_block :: p is the j-th active slot', w, 'p = active_slots[j]', [c.describe() for c in p])
+
+
+@rule('C06', 'C06.R7', 'a block is iterated until every active step is done, then the next block is prepared (the run does not stop early)', floor=6)
+def r7(ctx, R):
+    repo = ctx.repo
+    for rel, cn, driver in SERIAL:
+        fn = repo.func(rel, f'{cn}.run')
+        w = f'{rel}:{cn}.run'
+        R.fn(w)
+        inner = [l for l in walk_no_nested(fn) if isinstance(l, ast.While) and ast.unparse(l.test) == 'not done']
+        ok = len(inner) == 1 and len(inner[0].body) == 1 and ast.unparse(inner[0].body[0]) == f'done = self.{driver}(MS_active)'
+        R.check(ok, f'{cn}.run :: while not done: done = self.{driver}(MS_active)', w, 'the driver is called until it reports all steps done', [ast.unparse(l)[:80] for l in inner])
+        cfg = FuncCFG(fn)
+        init = [n for n, s in cfg.stmt_of.items() if isinstance(s, ast.Assign) and ast.unparse(s) == 'done = False']
+        ok = len(init) == 1 and inner and cfg.dominates(init[0], cfg.node_of[id(inner[0])]) and cfg.loops_of[id(cfg.stmt_of[init[0]])] == cfg.loops_of[id(inner[0])]
+        R.check(ok, f'{cn}.run :: done = False before every block', w, 'reset inside the outer loop, before the inner loop', f'{len(init)} reset(s)')
+        ms = [s for s in walk_no_nested(fn) if isinstance(s, ast.Assign) and ast.unparse(s.targets[0]) == 'MS_active']
+        R.check(len(ms) == 1 and ast.unparse(ms[0].value) == '[self.MS[p] for p in active_slots]', f'{cn}.run :: the block consists of the active steps, in slot order', w, '[self.MS[p] for p in active_slots]', [ast.unparse(s.value) for s in ms])
+        sl = [s for s in walk_no_nested(fn) if isinstance(s, ast.Assign) and ast.unparse(s.targets[0]) == 'active_slots']
+        R.check(len(sl) == 2 and all(ast.unparse(s.value) == 'list(itertools.compress(slots, active))' for s in sl), f'{cn}.run :: active_slots recomputed from the activity predicate before every restart_block', w, 'list(itertools.compress(slots, active)) x2', [ast.unparse(s.value) for s in sl])
+    rel, cn, _ = ct.MPI
+    fn = repo.func(rel, f'{cn}.run')
+    inner = [l for l in walk_no_nested(fn) if isinstance(l, ast.While) and ast.unparse(l.test) == 'not self.S.status.done']
+    ok = len(inner) == 1 and len(inner[0].body) == 1 and ast.unparse(inner[0].body[0]) == 'self.pfasst(comm_active, comm_active.size)'
+    R.check(ok, 'controller_MPI.run :: while not done: self.pfasst(comm_active, comm_active.size)', f'{rel}:{cn}.run', 'iterate until this rank is done', [ast.unparse(l)[:80] for l in inner])
